@@ -158,8 +158,15 @@ fn render_opts(m: &SrcModel, style: Style, model_names: bool, emit_where: bool) 
     }
     if !r.consts.is_empty() && emit_where {
         s.push_str("where\n");
-        for (n, v) in &r.consts {
-            s.push_str(&format!("    let {n} = {}\n", if *v < 0.0 { format!("0 - {}", -v) } else { format!("{v}") }));
+        for (i, (n, v)) in r.consts.iter().enumerate() {
+            if i > 0 {
+                // later constants are written relative to the first one (constants that reference constants)
+                let (n0, v0) = &r.consts[0];
+                let d = v - v0;
+                s.push_str(&format!("    let {n} = {n0} {} {}\n", if d < 0.0 { "-" } else { "+" }, d.abs()));
+            } else {
+                s.push_str(&format!("    let {n} = {}\n", if *v < 0.0 { format!("0 - {}", -v) } else { format!("{v}") }));
+            }
         }
     }
     s.push_str("define\n");
@@ -414,7 +421,7 @@ pub fn run(mut run: Run) -> ! {
     let quick = run.quick();
     let depth = if quick { 2 } else { 3 };
     let ncores = crate::props::c01::cores().len();
-    run.rule = format!("generator-AST models over bounded declarations (objective family: min/max of {ncores} cores in every chain of <= {depth} contexts x 4 declaration sets x 5 side-constraint sets; constraint family: the C01 core-in-context constraints with bounded declarations and objective max x / satisfy) are rendered to source TEXT in 3 spelling classes (keywords with explicit operators; symbolic aliases && || ! -> <-> with implicit multiplication and 'subject to'; fractional literals moved into where-constants with named rows and all/any blocks; a sum of n terms divided by n is written as an avg block in the first and third class) and solved with RoocSolver::try_new(text).solve_using(auto_solver); judged by an independent interpreter of the AST (exact optimum over the discrete domains x breakpoints of the continuous variable); distinct = source texts; non-trivial = a solution was returned");
+    run.rule = format!("generator-AST models over bounded declarations (objective family: min/max of {ncores} cores in every chain of <= {depth} contexts x 4 declaration sets x 5 side-constraint sets; constraint family: the C01 core-in-context constraints with bounded declarations and objective max x / satisfy) are rendered to source TEXT in 3 spelling classes (keywords with explicit operators; symbolic aliases && || ! -> <-> with implicit multiplication and 'subject to'; fractional literals moved into where-constants (later ones defined relative to the first) with named rows and all/any blocks; a sum of n terms divided by n is written as an avg block in the first and third class) and solved with RoocSolver::try_new(text).solve_using(auto_solver); judged by an independent interpreter of the AST (exact optimum over the discrete domains x breakpoints of the continuous variable); distinct = source texts; non-trivial = a solution was returned");
     run.assume("reference interpreter = refsem evaluator + breakpoint enumeration: a piecewise-linear objective over a closed bounded piecewise-linear set attains its optimum at a breakpoint; exact for models with at most one continuous variable; tolerance 1e-6");
     run.assume("models with several continuous variables (families OD, D): the others range over a 9-point rational grid, so the reference is a witness (a feasible point with that objective exists): the returned values must satisfy the text, the reported objective must equal the text objective there and must not be worse than the witness; an infeasible verdict is only refuted by a witness");
     let n2 = c02::family_size_pub(depth.min(2), false);
@@ -433,15 +440,22 @@ pub fn run(mut run: Run) -> ! {
         }
         check_case(&c, l);
     });
-    run.family("A-constraint-texts", na, move |i, l| {
-        let mut c = family_a(i, depth, false);
+    let constraint_case = |i: u64, depth: usize, reduced: bool| {
+        let mut c = family_a(i, depth, reduced);
         // give the feasibility models an objective on the continuous/integer variable
         if i % 2 == 0 {
             c.model.sense = Sense::Max;
             c.model.obj = var("x");
         }
-        check_case(&c, l);
-    });
+        c
+    };
+    if quick {
+        // chains of <= 2 contexts over the reduced menus, chains of <= 1 context over the full menus
+        run.family("A2-constraint-texts", family_a_size(2, true), move |i, l| check_case(&constraint_case(i, 2, true), l));
+        run.family("A1-constraint-texts", family_a_size(1, false), move |i, l| check_case(&constraint_case(i, 1, false), l));
+    } else {
+        run.family("A-constraint-texts", na, move |i, l| check_case(&constraint_case(i, depth, false), l));
+    }
     for k in ["texts", "answer:solution", "answer:infeasible", "reference:feasible", "reference:infeasible"] {
         run.require(k);
     }
